@@ -1,3 +1,7 @@
 //! Independent transcriptions of the published definitions (generic over `Num`, so they run symbolically and natively).
+pub mod cie;
+pub mod hexcone;
+pub mod oklab;
 pub mod rgbspace;
+pub mod transfer;
 pub mod w3c_blend;
